@@ -8,6 +8,7 @@
 package c09
 
 import (
+	"net/url"
 	"strings"
 	"time"
 
@@ -66,8 +67,21 @@ func (s *st) codeGrant(client string, scopes []string) int {
 	if s.jwt {
 		sess = world.NewJWTSession("peter")
 	}
-	code, err := s.w.AuthorizeCodeSession(client, scopes, []string{aud}, sess)
+	// the client asks for one scope more ("mail") than the resource owner grants: what counts for
+	// introspection is the GRANTED set
+	form := url.Values{
+		"client_id": {client}, "response_type": {"code"}, "redirect_uri": {"https://" + client + ".example/cb"},
+		"scope": {strings.Join(append(append([]string{}, scopes...), "mail"), " ")}, "state": {"state-0123456789"}, "audience": {aud},
+	}
+	ar, err := s.w.Provider.NewAuthorizeRequest(s.w.Ctx, world.Get(form))
 	zz.Assume(err == nil)
+	for _, sc := range scopes {
+		ar.GrantScope(sc)
+	}
+	ar.GrantAudience(aud)
+	aresp, err := s.w.Provider.NewAuthorizeResponse(s.w.Ctx, ar, sess)
+	zz.Assume(err == nil)
+	code := aresp.GetCode()
 	resp, err := s.w.Redeem(client, code)
 	zz.Assume(err == nil)
 	s.g = append(s.g, &grant{client: client, subject: "peter", scopes: scopes, audience: []string{aud}, code: code})
@@ -211,7 +225,13 @@ func (s *st) pick() (val string, t *world.Tok, label string) {
 		// swapped parts: random part of the access token in front of the refresh token's signature
 		return world.KeyOf(a.Val) + "." + world.SigOf(r.Val), nil, "mutation:swapped-parts"
 	case k == n+1:
-		// other prefix: the access token relabelled as a refresh token
+		// other prefix: the access token relabelled as a refresh token; or a live token padded with white space
+		switch zz.Choice("mutation", 3) {
+		case 1:
+			return a.Val + " ", nil, "mutation:whitespace-padded"
+		case 2:
+			return "\n" + r.Val, nil, "mutation:whitespace-padded"
+		}
 		return "ory_rt_" + a.Val[len("ory_at_"):], nil, "mutation:other-prefix"
 	default:
 		return "ory_at_" + zz.StringEx("garbage", 6, "."), nil, "mutation:garbage"
